@@ -143,6 +143,25 @@ class LinTrans:
         return latent @ self.matrix(len(latent))
 
 
+class ConsTrans:
+    """Constraint transformation handed to the library: a deterministic pseudo-random violation per decision, so that about
+    ``1 - level`` of all decisions are infeasible whatever the protocol.  v = frac(|sum(latent)| * 977 + |sum(x)| * 0.37 + j * phi);
+    inequality: max(0, v - level); equality: 0 when v < level else v."""
+
+    def __init__(self, nout, seed, level=0.5, equality=False):
+        self.nout, self.seed, self.level, self.equality = int(nout), int(seed), float(level), bool(equality)
+
+    def __call__(self, x, latent, **kw):
+        base = abs(float(numpy.sum(numpy.asarray(latent, dtype=float)))) * 977.0 + abs(float(numpy.sum(numpy.asarray(x, dtype=float)))) * 0.37
+        if not numpy.isfinite(base):
+            base = 0.0
+        out = numpy.empty(self.nout)
+        for j in range(self.nout):
+            v = (base + (j + 1 + self.seed % 7) * 0.6180339887) % 1.0
+            out[j] = (0.0 if v < self.level else v) if self.equality else max(0.0, v - self.level)
+        return out
+
+
 def nd_sum(mat, **kw):
     return numpy.asarray(mat, dtype=float).sum(1)
 
